@@ -82,14 +82,14 @@ def s2c_job(job):
     rng = random.Random(seed * 7919 + i)
     td = tc.from_model(tdm, offset=rng.choice(["0", "0.25", "-0.5"]))
     text = notes_for(rng, td) if notes_for else None
-    return tc.record(td, rng, kinds, i, notes_text=text, max_probes=(28 if "beat" in kinds else 60)), td.to_json()
+    return tc.record(td, rng, kinds, i, notes_text=text, max_probes=(18 if "beat" in kinds else 60)), td.to_json()
 
 
 def c2s_job(job):
     i, tdj, kinds, seed, text = job
     rng = random.Random(seed * 104729 + i)
     td = tc.TD.from_json(tdj)
-    return tc.record(td, rng, kinds, i, notes_text=text, max_probes=(24 if "beat" in kinds else 40))
+    return tc.record(td, rng, kinds, i, notes_text=text, max_probes=(18 if "beat" in kinds else 40))
 
 
 def run_c2s(ctx, pid, kinds, n_general, n_smooth, notes_for=None):
